@@ -13,7 +13,7 @@ RULE = ('full product: every residue string of length 1..L over {P,E,K} x pre-ex
         'residue/terminal slots x 16 internal rule sets (residue, class, multi-residue, look-behind targets; 1-3 groups of '
         '1-2 mods; two overlapping sets) x 13 N-terminal x 13 C-terminal rule forms (incl. alternation conditions and two rules applying at once) x max_mods 0..4 x 3 modes x 2 return '
         'types; rule values as texts, Mod objects and mixtures; a state = (string, pre-mods, rules); non-trivial = at least one rule matches a site')
-ASSUMPTIONS = ['exact clauses only for rule sets whose targets do not overlap on a residue; overlapping sets get the weak '
+ASSUMPTIONS = ['overlapping rule sets offer distinct groups per rule (the union per site is enumerated); formerly: overlapping sets get the weak '
                'clauses of the quantifier', 'terminal variants do not count against max_mods (pinned doctest)',
                'rule regexes are consuming patterns or the empty pattern for termini (site = first consumed residue)']
 
@@ -323,7 +323,7 @@ def check(case, ctx):
                     continue
                 forms = list(got) if rt == 'str' else [a.serialize() for a in got]
                 nforms += len(forms)
-                if mode == 'skip' and not overlapping:
+                if mode == 'skip':      # exact also for the overlapping rule sets: they offer distinct groups (union per site)
                     exp = ref_variable_skip(case, max_mods)
                     if sorted(forms) != exp:
                         missing = sorted(set(exp) - set(forms))
